@@ -172,7 +172,8 @@ def render (r : RenderReq) : Outcome :=
         -- the render function's handler records tokens[__token]
         -- `create_formatted_exception` cannot mix RenderError into `Exception` itself (MRO conflict):
         -- such an exception comes out without the formatter, i.e. without records (finding D-12c)
-        let errs : List ErrorOut := if ex.cls == "Exception" || ex.cls == "BaseException" then [] else
+        -- and exceptions outside the Exception hierarchy are not re-typed at all
+        let errs : List ErrorOut := if ex.cls == "Exception" || ex.cls == "BaseException" || !isSubclass cfg ex.cls ["Exception"] then [] else
           match s.x.token with
           | some (pos, len) =>
             let (l, c) := Tok.location body { str := [], pos := pos }
